@@ -106,7 +106,7 @@ inductive Arg (N : Type) where
   | num (x : N) (isBool : Bool)
   | str (s : Str)
   | err (msg : Str)
-  deriving Repr
+  deriving Repr, DecidableEq
 
 /-- result kinds of `cellResolver` for a single cell -/
 inductive CellArg (N : Type) where
@@ -114,7 +114,7 @@ inductive CellArg (N : Type) where
   | str (s : Str)
   | err (msg : Str)
   | empty
-  deriving Repr
+  deriving Repr, DecidableEq
 
 /-- text of a Go `error` / of `Value()` of a transient error argument -/
 inductive EMsg where
@@ -475,7 +475,7 @@ inductive Val (N : Type) where
   | bool (b : Bool)
   | blank
   | err (c : ErrCode)
-  deriving Repr
+  deriving Repr, DecidableEq
 
 variable {N : Type} [NumOps N]
 
